@@ -623,3 +623,338 @@ theorem start_correct (p : Nat) (xs : List Entry) (v : DataView) (ctx : SeekCtx 
       simp at hy
 
 end BS.Impl
+
+namespace BS.Impl
+
+/-! ### end side -/
+
+/-- byte `B` is the correct place to stop reading the entries `≤ t` -/
+def EndOK (p : Nat) (xs : List Entry) (t B : Nat) : Prop :=
+  ∃ j, j ≤ xs.length ∧ (∀ x ∈ xs.take j, x.ts ≤ t) ∧ (∀ x, xs[j]? = some x → t < x.ts) ∧ B = offA p xs j
+
+theorem findIdx?_first {α} (q : α → Bool) (X : List α) (a : α) (Y : List α)
+    (hX : ∀ x ∈ X, q x = false) (ha : q a = true) : (X ++ a :: Y).findIdx? q = some X.length := by
+  induction X with
+  | nil => simp [List.findIdx?_cons, ha]
+  | cons x X ih =>
+    have hx : q x = false := hX x (by simp)
+    simp only [List.cons_append, List.findIdx?_cons, hx, Bool.false_eq_true, if_false, List.length_cons]
+    rw [ih (fun y hy => hX y (by simp [hy]))]
+    simp
+
+theorem findIdx?_none {α} (q : α → Bool) (X : List α) (hX : ∀ x ∈ X, q x = false) : X.findIdx? q = none := by
+  induction X with
+  | nil => simp
+  | cons x X ih =>
+    have hx : q x = false := hX x (by simp)
+    simp only [List.findIdx?_cons, hx, Bool.false_eq_true, if_false]
+    rw [ih (fun y hy => hX y (by simp [hy]))]
+    simp
+
+/-- `rposition` on a list whose satisfying elements form a non-empty prefix `A` -/
+theorem rposition_prefix (q : Nat → Bool) (A B : List Nat) (hA : ∀ x ∈ A, q x = true) (hB : ∀ x ∈ B, q x = false)
+    (hne : A ≠ []) : rposition q (A ++ B) = some (A.length - 1) := by
+  unfold rposition
+  obtain ⟨a, A', hA'⟩ : ∃ a A', A.reverse = a :: A' := by
+    cases h : A.reverse with
+    | nil => simp at h; exact absurd h hne
+    | cons a A' => exact ⟨a, A', rfl⟩
+  have hrev : (A ++ B).reverse = B.reverse ++ a :: A' := by simp [hA']
+  rw [hrev, findIdx?_first q B.reverse a A' (by intro x hx; exact hB x (by simpa using hx))
+    (hA a (by have : a ∈ A.reverse := by rw [hA']; simp
+              simpa using this))]
+  simp only [List.length_reverse, List.length_append]
+  have : 0 < A.length := List.length_pos_iff.mpr hne
+  congr 1; omega
+
+/-- number of entries of `g` not newer than `t` -/
+def cntLe (g : List Entry) (t : Nat) : Nat := (g.takeWhile fun x => decide (x.ts ≤ t)).length
+
+theorem cntLe_le (g : List Entry) (t : Nat) : cntLe g t ≤ g.length := takeWhile_length_le' _ _
+
+theorem dropWhile_sorted_all (g : List Entry) (t : Nat) (hs : Sorted g) :
+    ∀ x ∈ g.dropWhile (fun x => decide (x.ts ≤ t)), t < x.ts := by
+  induction g with
+  | nil => simp
+  | cons a g ih =>
+    have hsg : Sorted g := (List.pairwise_cons.mp hs).2
+    have hlt : ∀ y ∈ g, a.ts < y.ts := (List.pairwise_cons.mp hs).1
+    simp only [List.dropWhile_cons]
+    split
+    · exact ih hsg
+    · rename_i ha
+      have hat : t < a.ts := by simpa using ha
+      intro x hx
+      simp only [List.mem_cons] at hx
+      rcases hx with rfl | hx
+      · exact hat
+      · have := hlt x hx; omega
+
+/-- **`find_read_end` inside group `k`**: it lands just after the last line not newer than `t` -/
+theorem findReadEnd_group (p : Nat) (xs : List Entry) (hv : Valid p xs) (k : Nat) (g : List Entry) (e : Entry) (o : Nat)
+    (hg : (groups xs)[k]? = some g) (ga : GroupAt p xs k g e o) (t : Nat) (ht : e.ts ≤ t) :
+    findReadEnd p (Spec.encode p xs) (t - e.ts) (o + metaSize p) (o + metaSize p + g.length * lineSize p)
+      = .ok (o + metaSize p + cntLe g t * lineSize p) ∧ 1 ≤ cntLe g t := by
+  obtain ⟨rest, hge⟩ := ga.head
+  have hord := group_order p xs hv.1 k g e o ga
+  have hr1 : 1 ≤ cntLe g t := by
+    unfold cntLe; rw [hge]; simp [ht]
+  refine ⟨?_, hr1⟩
+  unfold findReadEnd
+  have hnot : ¬ (o + metaSize p + g.length * lineSize p < o + metaSize p) := by omega
+  simp only [hnot, if_false]
+  rw [group_smallTss p xs hv k g e o hg ga]
+  -- split the deltas at the takeWhile point
+  have hsplit : g = g.takeWhile (fun x => decide (x.ts ≤ t)) ++ g.dropWhile (fun x => decide (x.ts ≤ t)) :=
+    (List.takeWhile_append_dropWhile).symm
+  have hA : ∀ d ∈ (g.takeWhile (fun x => decide (x.ts ≤ t))).map (fun x => x.ts - e.ts),
+      (fun d => decide (d ≤ t - e.ts)) d = true := by
+    intro d hd
+    simp only [List.mem_map] at hd
+    obtain ⟨x, hx, rfl⟩ := hd
+    have := mem_takeWhile_sat _ g x hx
+    simp only [decide_eq_true_eq] at this ⊢
+    omega
+  have hB : ∀ d ∈ (g.dropWhile (fun x => decide (x.ts ≤ t))).map (fun x => x.ts - e.ts),
+      (fun d => decide (d ≤ t - e.ts)) d = false := by
+    intro d hd
+    simp only [List.mem_map] at hd
+    obtain ⟨x, hx, rfl⟩ := hd
+    have hgt := dropWhile_sorted_all g t hord.2.2.1 x hx
+    have hxe : e.ts ≤ x.ts := hord.2.1 x (by
+      have : x ∈ g := by rw [hsplit]; exact List.mem_append_right _ hx
+      exact this)
+    simp only [decide_eq_false_iff_not, Nat.not_le]
+    omega
+  have hmap : g.map (fun x => x.ts - e.ts) =
+      (g.takeWhile (fun x => decide (x.ts ≤ t))).map (fun x => x.ts - e.ts) ++
+      (g.dropWhile (fun x => decide (x.ts ≤ t))).map (fun x => x.ts - e.ts) := by
+    conv => lhs; rw [hsplit]
+    rw [List.map_append]
+  have hne : (g.takeWhile (fun x => decide (x.ts ≤ t))).map (fun x => x.ts - e.ts) ≠ [] := by
+    intro h
+    have := congrArg List.length h
+    simp only [List.length_map, List.length_nil] at this
+    unfold cntLe at hr1; omega
+  rw [hmap, rposition_prefix _ _ _ hA hB hne]
+  simp only [List.length_map]
+  have hc : (g.takeWhile (fun x => decide (x.ts ≤ t))).length = cntLe g t := rfl
+  rw [hc]
+  have : cntLe g t - 1 + 1 = cntLe g t := by omega
+  rw [this]
+
+theorem sorted_get_lt (xs : List Entry) (hs : Sorted xs) (i j : Nat) (a b : Entry) (hij : i < j)
+    (ha : xs[i]? = some a) (hb : xs[j]? = some b) : a.ts < b.ts := by
+  obtain ⟨hi, hai⟩ := List.getElem?_eq_some_iff.mp ha
+  obtain ⟨hj, hbj⟩ := List.getElem?_eq_some_iff.mp hb
+  have := List.pairwise_iff_getElem.mp hs i j hi hj hij
+  rw [hai, hbj] at this
+  exact this
+
+/-- landing inside (or at the end of) group `k` after counting its entries not newer than `t` -/
+theorem endOK_in_group (p : Nat) (xs : List Entry) (hv : Valid p xs) (k : Nat) (g : List Entry) (e : Entry) (o : Nat)
+    (hg : (groups xs)[k]? = some g) (ga : GroupAt p xs k g e o) (t : Nat) (ht : e.ts ≤ t)
+    (hnext : cntLe g t = g.length → ∀ x, xs[pre (groups xs) k + g.length]? = some x → t < x.ts) :
+    EndOK p xs t (o + metaSize p + cntLe g t * lineSize p) := by
+  have hord := group_order p xs hv.1 k g e o ga
+  have hr1 : 1 ≤ cntLe g t := by
+    obtain ⟨rest, hge⟩ := ga.head
+    unfold cntLe; rw [hge]; simp [ht]
+  have hrle := cntLe_le g t
+  have htk := take_pre_add xs k g hg (cntLe g t) hrle
+  refine ⟨pre (groups xs) k + cntLe g t, ?_, ?_, ?_, ?_⟩
+  · have := congrArg List.length htk.1
+    simp only [List.length_append] at this
+    unfold pre; omega
+  · intro x hx
+    rw [htk.2] at hx
+    simp only [List.mem_append] at hx
+    rcases hx with hx | hx
+    · have := hord.1 x hx; omega
+    · have hpre : g.take (cntLe g t) = g.takeWhile fun x => decide (x.ts ≤ t) := take_takeWhile_length _ g
+      rw [hpre] at hx
+      have := mem_takeWhile_sat _ g x hx
+      simpa using this
+  · intro x hx
+    by_cases hlt : cntLe g t < g.length
+    · have hget : xs[pre (groups xs) k + cntLe g t]? = g[cntLe g t]? := by
+        have h : (((groups xs).take k).flatten ++ g ++ ((groups xs).drop (k + 1)).flatten)[
+            ((groups xs).take k).flatten.length + cntLe g t]? = g[cntLe g t]? := by
+          rw [List.append_assoc, List.getElem?_append_right (by omega)]
+          simp only [Nat.add_sub_cancel_left]
+          rw [List.getElem?_append_left hlt]
+        rw [← htk.1] at h
+        exact h
+      rw [hget] at hx
+      have := takeWhile_stop (fun (x : Entry) => decide (x.ts ≤ t)) g x hx
+      simpa using this
+    · have heq : cntLe g t = g.length := by omega
+      rw [heq] at hx
+      exact hnext heq x hx
+  · rw [ga.offLine _ hr1 hrle]
+
+end BS.Impl
+
+namespace BS.Impl
+
+/-- **T7, end side**: for an end time inside the data range the seek picks a correct end -/
+theorem end_correct (p : Nat) (xs : List Entry) (v : DataView) (ctx : SeekCtx p xs v) (t : Nat)
+    (hfirst : ∀ x, xs.head? = some x → x.ts ≤ t) (hlast : ∃ l ∈ xs, t ≤ l.ts)
+    (st : Nat) (sa : StartArea) (sf : Nat) :
+    ∃ ea ef B, endSearchBounds v t = .ok (ea, ef) ∧
+      refineEnd v (Spec.encode p xs) ⟨st, sa, sf, t, ea, ef⟩ = .ok B ∧ EndOK p xs t B := by
+  obtain ⟨hkle, hB1, hB2, hB3⟩ := bsearch_spec v.entries t
+  have hv := ctx.valid
+  unfold endSearchBounds
+  simp only
+  cases hek : v.entries[(bsearch v.entries t).2]? with
+  | some x =>
+    obtain ⟨htx, hhit⟩ := hB2 x hek
+    obtain ⟨g, e, hg, hxe, ga⟩ := entry_group p xs v ctx _ x hek
+    have hord := group_order p xs hv.1 _ g e x.off ga
+    by_cases hit : (bsearch v.entries t).1 = true
+    · -- exact hit: read up to and including the first line of that section
+      have hxt : x.ts = t := hhit.mp hit
+      simp only [hit, if_true]
+      refine ⟨_, _, _, rfl, rfl, ?_⟩
+      have hglen : 1 ≤ g.length := by obtain ⟨r, hr⟩ := ga.head; rw [hr]; simp
+      have htk := take_pre_add xs _ g hg 1 hglen
+      refine ⟨pre (groups xs) (bsearch v.entries t).2 + 1, ?_, ?_, ?_, ?_⟩
+      · have := (List.getElem?_eq_some_iff.mp ga.opens.1).1; omega
+      · intro y hy
+        rw [htk.2] at hy
+        obtain ⟨rest, hge⟩ := ga.head
+        simp only [hge, List.take_succ_cons, List.take_zero, List.mem_append, List.mem_singleton] at hy
+        rcases hy with hy | rfl
+        · have := hord.1 y hy; omega
+        · omega
+      · intro y hy
+        have := sorted_get_lt xs hv.1 _ _ e y (Nat.lt_succ_self _) ga.opens.1 hy
+        omega
+      · simp only [lineStart, ctx.p_eq]
+        rw [ga.offLine 1 (Nat.le_refl _) hglen]
+        omega
+    · have hit' : (bsearch v.entries t).1 = false := by simpa using hit
+      have hlt : t < x.ts := by
+        have : x.ts ≠ t := fun h => hit (hhit.mpr h)
+        omega
+      simp only [hit', Bool.false_eq_true, if_false]
+      by_cases hk0 : (bsearch v.entries t).2 = 0
+      · exfalso
+        rw [hk0] at hg ga
+        have hh := groupAt_zero_head p xs g e x.off ga
+        have := hfirst e hh
+        omega
+      · have hnl : (bsearch v.entries t).2 ≠ v.entries.length := by
+          have := (List.getElem?_eq_some_iff.mp hek).1; omega
+        simp only [hk0, hnl, if_false]
+        obtain ⟨k', hk'⟩ : ∃ k', (bsearch v.entries t).2 = k' + 1 := ⟨(bsearch v.entries t).2 - 1, by omega⟩
+        rw [hk'] at hek hg ga ⊢
+        simp only [Nat.add_sub_cancel]
+        have hprev_ex : k' < v.entries.length := by omega
+        obtain ⟨pv, hpv⟩ : ∃ pv, v.entries[k']? = some pv := ⟨_, List.getElem?_eq_getElem hprev_ex⟩
+        obtain ⟨g', e', hg', hpe, ga'⟩ := entry_group p xs v ctx k' pv hpv
+        have hord' := group_order p xs hv.1 k' g' e' pv.off ga'
+        have hpvlt : pv.ts < t := hB1 k' pv (by omega) hpv
+        simp only [hpv, hek]
+        have htake := take_through_group xs k' g' hg'
+        have hxoff : x.off = pv.off + metaSize p + g'.length * lineSize p := by
+          have h1 := ga.offHead
+          rw [pre_succ _ k' g' hg'] at h1
+          have hglen : 1 ≤ g'.length := by obtain ⟨r, hr⟩ := ga'.head; rw [hr]; simp
+          rw [ga'.offLine g'.length hglen (Nat.le_refl _)] at h1
+          omega
+        have hnext_gt : ∀ y, xs[pre (groups xs) k' + g'.length]? = some y → t < y.ts := by
+          intro y hy
+          rw [← pre_succ _ k' g' hg', ga.opens.1] at hy
+          cases hy; omega
+        by_cases hgap : inGap t pv.ts = true
+        · simp only [hgap, if_true]
+          refine ⟨_, _, _, rfl, rfl, ?_⟩
+          refine ⟨pre (groups xs) (k' + 1), ?_, ?_, ?_, ?_⟩
+          · have := (List.getElem?_eq_some_iff.mp ga.opens.1).1; omega
+          · intro y hy
+            rw [htake] at hy
+            simp only [List.mem_append] at hy
+            have hg2 : t > pv.ts + 65534 := by
+              simpa [inGap, maxSmallTs_eq] using hgap
+            rcases hy with hy | hy
+            · have := hord'.1 y hy; omega
+            · have := ga'.within y hy; omega
+          · intro y hy
+            rw [ga.opens.1] at hy; cases hy; omega
+          · exact ga.offHead.symm
+        · have hgap' : inGap t pv.ts = false := by simpa using hgap
+          simp only [hgap', Bool.false_eq_true, if_false]
+          have hsmall : t - pv.ts ≤ 65534 := by
+            have : ¬ t > pv.ts + 65534 := by simpa [inGap, maxSmallTs_eq] using hgap'
+            omega
+          have hso : smallOf t pv.ts = .ok (t - pv.ts) := by
+            unfold smallOf
+            have h1 : ¬ t < pv.ts := by omega
+            have h2 : ¬ t - pv.ts > maxSmallTs := by rw [maxSmallTs_eq]; omega
+            simp [h1, h2]
+          have hfr := findReadEnd_group p xs hv k' g' e' pv.off hg' ga' t (by omega)
+          refine ⟨_, _, pv.off + metaSize p + cntLe g' t * lineSize p, rfl, ?_, ?_⟩
+          · simp only [refineEnd, hso, bind, Except.bind, pure, Except.pure, lineStart, ctx.p_eq, hxoff]
+            rw [hpe, hfr.1]
+          · exact endOK_in_group p xs hv k' g' e' pv.off hg' ga' t (by omega) (fun _ => hnext_gt)
+  | none =>
+    have hit' : (bsearch v.entries t).1 = false := hB3 hek
+    have hklen : (bsearch v.entries t).2 = v.entries.length := by
+      have := List.getElem?_eq_none_iff.mp hek; omega
+    simp only [hit', Bool.false_eq_true, if_false]
+    obtain ⟨l, hl, htl⟩ := hlast
+    have hne : xs ≠ [] := by intro h; rw [h] at hl; simp at hl
+    have hGne : (groups xs) ≠ [] := by
+      intro h
+      have := groups_flatten xs
+      rw [h] at this
+      simp at this
+      exact hne this
+    have helen : v.entries.length = (groups xs).length := by
+      rw [ctx.entries]; simp [toIEntries, secsOf_length]
+    have hpos : 0 < v.entries.length := by
+      rw [helen]; exact List.length_pos_iff.mpr hGne
+    have hl0 : ¬ v.entries.length = 0 := by omega
+    simp only [hklen, hl0, if_false, if_true]
+    obtain ⟨pv, hpv⟩ : ∃ pv, v.entries[v.entries.length - 1]? = some pv :=
+      ⟨_, List.getElem?_eq_getElem (by omega)⟩
+    obtain ⟨g', e', hg', hpe, ga'⟩ := entry_group p xs v ctx _ pv hpv
+    have hord' := group_order p xs hv.1 _ g' e' pv.off ga'
+    have hpvlt : pv.ts < t := hB1 _ pv (by omega) hpv
+    simp only [hpv]
+    have hdrop : (groups xs).drop (v.entries.length - 1 + 1) = [] := by
+      apply List.drop_eq_nil_of_le; omega
+    have hsplit := ga'.split
+    rw [hdrop] at hsplit
+    simp only [List.flatten_nil, List.append_nil] at hsplit
+    have hlenx : xs.length = pre (groups xs) (v.entries.length - 1) + g'.length := by
+      have := congrArg List.length hsplit
+      simp only [List.length_append] at this
+      unfold pre; omega
+    have hglen : 1 ≤ g'.length := by obtain ⟨r, hr⟩ := ga'.head; rw [hr]; simp
+    have hdl : v.dataLen = pv.off + metaSize p + g'.length * lineSize p := by
+      rw [ctx.dataLen, ← ga'.offLine g'.length hglen (Nat.le_refl _), ← hlenx]
+      unfold offA; simp
+    have hlmem : l ∈ ((groups xs).take (v.entries.length - 1)).flatten ∨ l ∈ g' := by
+      rw [hsplit] at hl; simpa using hl
+    have hsmall : t - pv.ts ≤ 65534 := by
+      rcases hlmem with h | h
+      · have := hord'.1 l h; omega
+      · have := ga'.within l h; omega
+    have hso : smallOf t pv.ts = .ok (t - pv.ts) := by
+      unfold smallOf
+      have h1 : ¬ t < pv.ts := by omega
+      have h2 : ¬ t - pv.ts > maxSmallTs := by rw [maxSmallTs_eq]; omega
+      simp [h1, h2]
+    have hfr := findReadEnd_group p xs hv _ g' e' pv.off hg' ga' t (by omega)
+    refine ⟨_, _, pv.off + metaSize p + cntLe g' t * lineSize p, rfl, ?_, ?_⟩
+    · simp only [refineEnd, hso, bind, Except.bind, pure, Except.pure, lineStart, ctx.p_eq, hdl]
+      rw [hpe, hfr.1]
+    · refine endOK_in_group p xs hv _ g' e' pv.off hg' ga' t (by omega) ?_
+      intro _ y hy
+      rw [← hlenx] at hy
+      simp at hy
+
+end BS.Impl
